@@ -461,6 +461,16 @@ def scan_rules(rep, sfacts):
         for cst in conts:
             # find guards of this continue: enclosing ifs
             enc = enclosing_conditions(body, cst)
+            if cst['k'] in ('break', 'return'):
+                # leaving the scanning loop drops the rest of every file that is still being scanned, unless none is
+                in_inner = any(x is cst for y in walk_stmts(body) if y['k'] in ('for', 'while', 'do', 'rangefor', 'switch') and y is not body
+                               for x in walk_stmts(y.get('body') or {'k': 'block', 's': [z for c_ in y.get('cases', []) for z in c_['s']]}))
+                stack_empty = any(pol and any(is_call(x, '::empty') and x.get('obj') is not None and vec_of(x['obj'], 'Scanner') for x in walk_expr(cx)) for c, pol, cx in enc)
+                if not in_inner and not stack_empty:
+                    S2.violation('scan: %s inside the scanning loop (line %d)' % (cst['k'], cst['loc'][0]), 'the scanning loop is left while files are still being scanned: the remaining '
+                                 'tokens of the including files are never produced', 'Compiler/src/scan.cpp:%d' % cst['loc'][0],
+                                 witness={'input': 'main: include "a" x0 := 1   a: include "a"', 'effect': 'x0 := 1 is missing from the token list'})
+                    continue
             okc = any(mentions_eof_test(cx, statvars) or 'INCLUDE' in c for c, pol, cx in enc if pol)
             if not okc:
                 bad.append('%s at line %d under %s' % (cst['k'], cst['loc'][0], [(c, pol) for c, pol, cx in enc]))
